@@ -492,7 +492,7 @@ func runProperty(w *World, prop, tier, vdir string, start time.Time, writeBaseli
 	// or at the call) although their own proof obligation is not discharged
 	assumedInv := []string{}
 	for _, u := range undecided {
-		if strings.Contains(u, ":inv-entry(") || strings.Contains(u, ":inv-preserved(") || strings.Contains(u, ":pre(") || strings.Contains(u, ":decreases(") {
+		if strings.Contains(u, ":inv-entry(") || strings.Contains(u, ":inv-preserved(") || strings.Contains(u, ":inv-cut(") || strings.Contains(u, ":pre(") || strings.Contains(u, ":decreases(") {
 			assumedInv = append(assumedInv, u)
 		}
 	}
